@@ -16,7 +16,7 @@
    NOT PROVED (correspondence + oracle only): fields, dynamic-length types, explicit or bit
    positions, BYTE-SIZE, length keys (see DESIGN.md, "partial"). *)
 From Coq Require Import ZArith List Bool.
-From OV Require Import Base.Bytes Base.Wire Generated Model.Str Model.Codec Proofs.BytesProofs Proofs.AtomicProofs Proofs.CodecProps Proofs.FlatProofs Proofs.TreeProofs.
+From OV Require Import Base.Bytes Base.Wire Generated Model.Str Model.Codec Proofs.BytesProofs Proofs.AtomicProofs Proofs.CodecProps Proofs.FlatProofs Proofs.TreeProofs Proofs.TreeWireProofs Proofs.FieldProofs Proofs.DynFieldProofs Proofs.PadProofs.
 Import ListNotations.
 Open Scope Z_scope.
 
@@ -164,3 +164,125 @@ Theorem C01_nested_example2 :
   decode_msg ps [34; 7; 1; 2; 170; 187; 0; 0] = Ok (VDict (out_dict ms)).
 Proof. exact tree_example2. Qed.
 Print Assumptions C01_nested_example2.
+
+(* ---------- lists of structures: STATIC-FIELD (Proofs/FieldProofs.v) ---------- *)
+(* A "good member" (rgood k) is a parameter known to round-trip with known bytes, given fuel k. Leaves,
+   structures of good members and STATIC-FIELDs whose items are structures of good members filling the item size
+   exactly are good members -- so fields may hold structures which hold fields, to any depth -- and a message made
+   of good members round-trips with exactly the concatenated bytes. *)
+Theorem C01_leaf_member : forall x vv w, sane vv x -> canon vv x w -> rgood 2 (leaf_rm x vv w).
+Proof. exact leaf_rgood. Qed.
+Print Assumptions C01_leaf_member.
+
+Theorem C01_structure_member : forall k nm rs,
+  (forall x, In x rs -> rgood k x) -> NoDup (map m_name (rms rs)) -> rgood (3 + k) (struct_rm nm rs).
+Proof. exact struct_rgood. Qed.
+Print Assumptions C01_structure_member.
+
+Theorem C01_static_field_member : forall k nm ps isz items,
+  (forall rs, In rs items -> item_ok k ps isz rs) -> rgood (4 + k) (field_rm nm ps isz items).
+Proof. exact field_rgood. Qed.
+Print Assumptions C01_static_field_member.
+
+Theorem C01_message_of_members_roundtrip : forall k rs,
+  (forall x, In x rs -> rgood k x) -> NoDup (map m_name (rms rs)) ->
+  let ps := map m_p (rms rs) in
+  (k + 1 <= fuel_of ps)%nat ->
+  encode_msg ps None (VDict (in_dict (rms rs))) = Ok (rbytes rs, false) /\
+  decode_msg ps (rbytes rs) = Ok (VDict (out_dict (rms rs))).
+Proof. exact rmessage_roundtrip. Qed.
+Print Assumptions C01_message_of_members_roundtrip.
+
+(* the premises are satisfiable: service id, a STATIC-FIELD of three items {a: 8 bit, b: 16 bit little endian}, a byte *)
+Example C01_field_premises :
+  let u8 nm := mkF nm 8 BUint None true BUint None in
+  let u16le nm := mkF nm 16 BUint None false BUint None in
+  let vv (z : Z) := fun _ : name => VInt z in
+  let item (a b : Z) := [leaf_rm (u8 [97]) (vv a) (wire_bytes (u8 [97]) a); leaf_rm (u16le [98]) (vv b) (wire_bytes (u16le [98]) b)] in
+  let items := [item 1 258; item 2 772; item 255 65535] in
+  let ps_item := map m_p (rms (item 0 0)) in
+  let rs := [leaf_rm (mkF [115] 8 BUint None true BUint (Some (VInt 34))) (vv 34) (wire_bytes (mkF [115] 8 BUint None true BUint (Some (VInt 34))) 34);
+             field_rm [102] ps_item 3 items;
+             leaf_rm (u8 [122]) (vv 9) (wire_bytes (u8 [122]) 9)] in
+  (forall x, In x rs -> rgood 6 x) /\ NoDup (map m_name (rms rs)) /\ (6 + 1 <= fuel_of (map m_p (rms rs)))%nat.
+Proof. exact field_premises. Qed.
+Print Assumptions C01_field_premises.
+
+Example C01_field_example :
+  let u8 nm := mkF nm 8 BUint None true BUint None in
+  let u16le nm := mkF nm 16 BUint None false BUint None in
+  let vv (z : Z) := fun _ : name => VInt z in
+  let item (a b : Z) := [leaf_rm (u8 [97]) (vv a) (wire_bytes (u8 [97]) a); leaf_rm (u16le [98]) (vv b) (wire_bytes (u16le [98]) b)] in
+  let items := [item 1 258; item 2 772; item 255 65535] in
+  let ps_item := map m_p (rms (item 0 0)) in
+  let rs := [leaf_rm (mkF [115] 8 BUint None true BUint (Some (VInt 34))) (vv 34) [34];
+             field_rm [102] ps_item 3 items;
+             leaf_rm (u8 [122]) (vv 9) [9]] in
+  rbytes rs = [34; 1; 2; 1; 2; 4; 3; 255; 255; 255; 9] /\
+  encode_msg (map m_p (rms rs)) None (VDict (in_dict (rms rs))) = Ok (rbytes rs, false) /\
+  decode_msg (map m_p (rms rs)) (rbytes rs) = Ok (VDict (out_dict (rms rs))).
+Proof. exact field_example. Qed.
+Print Assumptions C01_field_example.
+
+(* ---------- counted lists of structures: DYNAMIC-LENGTH-FIELD (Proofs/DynFieldProofs.v) ---------- *)
+(* an item count of bl bits followed by that many items, each a structure of good members of any sizes *)
+Theorem C01_dynamic_length_field_member : forall k nm ps bl hl items,
+  0 < bl <= 64 -> zlen items < 2 ^ bl -> (forall rs, In rs items -> ditem_ok k ps rs) ->
+  rgood (4 + k) (dyn_rm nm ps bl hl items).
+Proof. exact dyn_rgood. Qed.
+Print Assumptions C01_dynamic_length_field_member.
+
+(* premises satisfiable: service id, a DYNAMIC-LENGTH-FIELD of items {a: 8 bit, n: STATIC-FIELD of two 16 bit values}, a byte *)
+Example C01_dynamic_field_premises :
+  let u8 nm := mkF nm 8 BUint None true BUint None in
+  let u16 nm := mkF nm 16 BUint None true BUint None in
+  let vv (z : Z) := fun _ : name => VInt z in
+  let inner (x : Z) := [leaf_rm (u16 [118]) (vv x) (wire_bytes (u16 [118]) x)] in
+  let ps_inner := map m_p (rms (inner 0)) in
+  let item (a x y : Z) := [leaf_rm (u8 [97]) (vv a) (wire_bytes (u8 [97]) a);
+                           field_rm [110] ps_inner 2 [inner x; inner y]] in
+  let ps_item := map m_p (rms (item 0 0 0)) in
+  let rs := [leaf_rm (mkF [115] 8 BUint None true BUint (Some (VInt 89))) (vv 89) (wire_bytes (mkF [115] 8 BUint None true BUint (Some (VInt 89))) 89);
+             dyn_rm [102] ps_item 8 true [item 1 258 772; item 2 1 65535];
+             leaf_rm (u8 [122]) (vv 9) (wire_bytes (u8 [122]) 9)] in
+  (forall x, In x rs -> rgood 10 x) /\ NoDup (map m_name (rms rs)) /\ (10 + 1 <= fuel_of (map m_p (rms rs)))%nat.
+Proof. exact dyn_premises. Qed.
+Print Assumptions C01_dynamic_field_premises.
+
+Example C01_dynamic_field_example :
+  let u8 nm := mkF nm 8 BUint None true BUint None in
+  let u16 nm := mkF nm 16 BUint None true BUint None in
+  let vv (z : Z) := fun _ : name => VInt z in
+  let inner (x : Z) := [leaf_rm (u16 [118]) (vv x) (wire_bytes (u16 [118]) x)] in
+  let ps_inner := map m_p (rms (inner 0)) in
+  let item (a x y : Z) := [leaf_rm (u8 [97]) (vv a) (wire_bytes (u8 [97]) a);
+                           field_rm [110] ps_inner 2 [inner x; inner y]] in
+  let ps_item := map m_p (rms (item 0 0 0)) in
+  let rs := [leaf_rm (mkF [115] 8 BUint None true BUint (Some (VInt 89))) (vv 89) [89];
+             dyn_rm [102] ps_item 8 true [item 1 258 772; item 2 1 65535];
+             leaf_rm (u8 [122]) (vv 9) [9]] in
+  rbytes rs = [89; 2; 1; 1; 2; 3; 4; 2; 0; 1; 255; 255; 9] /\
+  encode_msg (map m_p (rms rs)) None (VDict (in_dict (rms rs))) = Ok (rbytes rs, false) /\
+  decode_msg (map m_p (rms rs)) (rbytes rs) = Ok (VDict (out_dict (rms rs))).
+Proof. exact dyn_example. Qed.
+Print Assumptions C01_dynamic_field_example.
+
+(* ---------- STATIC-FIELD items shorter than ITEM-BYTE-SIZE are padded with zero bytes (Proofs/PadProofs.v) ---------- *)
+Theorem C01_padded_static_field_member : forall k nm ps isz items,
+  (forall rs, In rs items -> pitem_ok k ps isz rs) -> rgood (4 + k) (pfield_rm nm ps isz items).
+Proof. exact pfield_rgood. Qed.
+Print Assumptions C01_padded_static_field_member.
+
+Example C01_padded_field_example :
+  let u8 nm := mkF nm 8 BUint None true BUint None in
+  let vv (z : Z) := fun _ : name => VInt z in
+  let item (a : Z) := [leaf_rm (u8 [97]) (vv a) (wire_bytes (u8 [97]) a)] in
+  let ps_item := map m_p (rms (item 0)) in
+  let rs := [leaf_rm (mkF [115] 8 BUint None true BUint (Some (VInt 34))) (vv 34) [34];
+             pfield_rm [102] ps_item 3 [item 7; item 8];
+             leaf_rm (u8 [122]) (vv 9) [9]] in
+  rbytes rs = [34; 7; 0; 0; 8; 0; 0; 9] /\
+  encode_msg (map m_p (rms rs)) None (VDict (in_dict (rms rs))) = Ok (rbytes rs, false) /\
+  decode_msg (map m_p (rms rs)) (rbytes rs) = Ok (VDict (out_dict (rms rs))).
+Proof. exact padded_example. Qed.
+Print Assumptions C01_padded_field_example.
